@@ -73,7 +73,10 @@ class SimultaneousScheduler(Scheduler):
 
         self.current_time = time
 
-        self.progress = self.current_time / model.stoptime
+        # fraction of the span from start time to stop time that has been covered; measured from the start time so that
+        # runs that stop at or before time 0 (e.g. from -3 to 0) are reported - and recognised as finished - as well
+        span = model.stoptime - model.starttime
+        self.progress = (self.current_time - model.starttime) / span if span != 0 else 1.0
 
         if progress_widget:
             progress_widget.value = self.progress
